@@ -47,10 +47,26 @@ def gen_single_T(r, count):
         yield {"spec": spec, "pre": pre, "args": args, "driver": driver, "colls": colls, "pos": "T-single", "plan": {"sched": "free", "sched_seed": 1}, "fs": "ext4", "single_T": True}
 
 
+def gen_same_name_race(r, count):
+    """Two sources with the same basename, the first a symlink to a name that already exists in the destination, the second
+    a regular file; supervisor gates force: walker probes dst/l for both sources -> a worker creates dst/l -> B -> the other
+    worker opens dst/l.  Whatever xcp does with the duplicate name, the pre-existing dst/B must survive."""
+    for i in range(count):
+        spec = [{"p": "s1", "k": "d"}, {"p": "s1/B", "k": "f", "size": 3, "seed": 2, "segs": None}, {"p": "s1/l", "k": "l", "target": "B"}, {"p": "s2", "k": "d"},
+                {"p": "s2/l", "k": "f", "size": r.choice([10, 70000]), "seed": r.randrange(1, 1 << 30), "segs": None}]
+        pre = [{"p": "dst", "k": "d"}, {"p": "dst/B", "k": "f", "size": 77, "seed": 9, "segs": None, "mode": 0o640, "mtime_ns": 1_000_000_000_000_000_001},
+               {"p": "elsewhere", "k": "d"}, {"p": "elsewhere/real", "k": "f", "size": 12, "seed": 5, "segs": None}]
+        args = ["--driver", "parfile", "-w", str(r.choice([2, 4])), "--block-size", "16KB", "-n", "s1/l", "s2/l", "dst"]
+        yield {"spec": spec, "pre": pre, "args": args, "driver": "parfile", "colls": [], "pos": "same-name-race", "fs": "ext4", "gated": True,
+               "plan": {"sched": "free", "sched_seed": r.randrange(1 << 30)}}
+
+
 def gen_cases(tier, seed):
     n = 1000 if tier == "quick" else 12000
     r = random.Random(seed * 67867967 + 8)
     for c in gen_single_T(r, 120 if tier == "quick" else 1500):
+        yield c
+    for c in gen_same_name_race(r, 6 if tier == "quick" else 60):
         yield c
     for i in range(n):
         driver = ["parfile", "parblock"][i % 2]
@@ -125,7 +141,7 @@ def gen_cases(tier, seed):
         if form == "glob":
             extra.append("--glob")
             srcargs = ["n[0-9][0-9]"] if r.random() < 0.5 else ["n0*", "n1*"] if k > 10 else ["n*"]
-        base = ["--driver", driver, "-w", str(r.choice([1, 2, 4, 8])), "--block-size", "16KB", "-n", "-r"] + extra
+        base = ["--driver", driver, "-w", str(r.choice([0, 1, 2, 4, 8])), "--block-size", "16KB", "-n", "-r"] + extra
         args = base + (["--target-directory", dsp] + srcargs if form == "target-directory" else srcargs + [dsp])
         yield {"spec": spec, "pre": pre, "args": args, "driver": driver, "colls": colls, "pos": posclass if ncoll else "none", "plan": sch, "fs": "ext4"}
 
@@ -144,6 +160,12 @@ def run_case(case):
         pre = tree.snapshot(root)
         plan = dict(case["plan"])
         plan.update({"log_mode": "full", "pct_horizon": 300})
+        if case.get("gated"):
+            lp = root + "/dst/l"
+            plan["rules"] = [{"id": "n1", "sys": "statx", "path": lp, "action": "note", "when": "exit"},
+                             {"id": "g1", "sys": "symlink", "path": lp, "action": "hold", "until": "n1", "count": 2, "maxwait_ms": 400},
+                             {"id": "n2", "sys": "symlink", "path": lp, "action": "note", "when": "exit"},
+                             {"id": "g2", "sys": "openat", "path": lp, "action": "hold", "until": "n2", "maxwait_ms": 400}]
         run = core.run_xcp(sb, [a.replace("@ROOT@", root) for a in case["args"]], plan)
         if run.verdict != "exited":
             res["inconc"].append("run-" + run.verdict)
@@ -199,6 +221,9 @@ def run_case(case):
             if hit and (ex is None or ex.get("ret", -1) >= 0):
                 res["viol"].append({"sig": "%s:trace:%s" % (case["driver"], ent["sys"]), "what": "%s (seq %d, role %s); %s" % (hit, ent["seq"], ent.get("role"), tag)})
         res["counters"]["mutating-calls-monitored"] = nchk
+        if case.get("gated"):
+            res["counters"]["gated-runs"] = 1
+            res["counters"]["gated-interleaving-achieved"] = int(run.rule("g1")["applied"] > 0 and run.rule("g2")["applied"] > 0 and run.summary.get("gate_timeouts", 1) == 0)
         res["counters"]["pre-existing-entries-checked"] = len(existing)
         res["counters"]["exit0" if run.exit0 else "nonzero"] = 1
         if hard:
